@@ -50,6 +50,10 @@ def with_metadata(root, rnd):
         return
     am = Node("additionalMetadata")
     md = Node("metadata")
+    if rnd.random() < 0.4:
+        # the element is metadata whatever prefix it carries (as <eml:metadata> / a JSON model with a prefix would leave it)
+        md.prefix = rnd.choice(["eml", "x", ""])
+        md.add_namespace("eml", "https://eml.ecoinformatics.org/eml-2.2.0")
     am.add_child(md)
     root.add_child(am)
     for _ in range(rnd.choice([0, 1, 1, 2, 3])):       # more than one child under metadata is itself invalid
